@@ -27,6 +27,11 @@ CHECKS = {
             "All 2700 combinations of script x (platform, board) class x upload x PlatformIO state x fault point are executed against the real target() with subprocess/tempfile/__main__/pathlib replaced by recording fakes that honour check= like subprocess; the reference model decides the expected exception, the recorded tool invocations (order, cwd), the written files (main.cpp bytes, platformio.ini read back with configparser) and the absence of effects.",
             "pio itself is never executed; file-system access is assumed to go through pathlib/tempfile (faults that are never reached are counted, not judged).",
             "DESIGN.md 3/C12"),
+    "C08": ("exploration",
+            "exhaustive enumeration of call shapes from inspect.signature; oracle = Python's own binder (bind + apply_defaults) against IR fields, plus byte-identical C++ among accepted shapes with equal bound arguments",
+            "Every positional/keyword split, omitted-default subset and keyword order of every constructor, method and Core helper is generated with distinct sentinel values (shapes the host class itself rejects are dropped by really calling it); each accepted shape's IR must carry exactly the values Python binds, so swaps, drops and wrong defaults are visible. Finite domain, enumerated completely for <=4 keywords, 24 orders sampled beyond.",
+            "Parameter->IR-field table (identity except renamed fields) is harness knowledge; host-only parameters are not compared.",
+            "DESIGN.md 3/C08"),
 }
 
 PENDING = {}
